@@ -235,16 +235,26 @@ def mcp_serve_killed(ctx, rng):
                 return None
             body += chunk
         return json.loads(body)
+    # calls whose ARGUMENTS are very large (a thousand long ids; a candidate configuration of more than a megabyte): whatever the server
+    # answers, a mutating call leaves its audit record
+    big_ids = ["dead-%04d-%s" % (i, "x" * 400) for i in range(1000)]
+    big_cfg = open(cfg).read() + "# " + ("c" * 1200) + "\n" + "".join("# padding line %06d %s\n" % (i, "p" * 100) for i in range(11000))
+    big = {"dlq_delete+": ("dlq_delete", {"ids": big_ids, "reason": "verif"}), "messages_cancel+": ("messages_cancel", {"ids": big_ids, "reason": "verif"}),
+           "config_apply+": ("config_apply", {"content": big_cfg, "mode": "preview_only"}),
+           "messages_publish+": ("messages_publish", {"items": [{"id": "p%d" % i, "route": "/hooks", "payload_b64": "eA==", "headers": {"X-Pad": "h" * 300}} for i in range(900)],
+                                                      "reason": "verif"})}
     sessions = [("operate", ["config_apply", "messages_cancel", "dlq_delete"], signal.SIGKILL),
                 ("admin", ["messages_cancel_by_filter", "management_endpoint_delete", "messages_resume", "messages_publish"], signal.SIGTERM),
-                ("read", ["dlq_requeue", "instance_stop"], signal.SIGKILL)]
+                ("read", ["dlq_requeue", "instance_stop"], signal.SIGKILL),
+                ("admin", ["dlq_delete+", "config_apply", "config_apply+", "messages_cancel+", "messages_publish+", "dlq_requeue"], signal.SIGTERM)]
     for role, tools, sig in sessions:
         p = subprocess.Popen([hk, "mcp", "serve", "--config", cfg, "--db", os.path.join(d, "q-%s.db" % role), "--role", role, "--principal", "ops@example.test",
                               "--enable-mutations"], stdin=subprocess.PIPE, stdout=subprocess.PIPE, stderr=subprocess.PIPE, cwd=d)
         answered = []
         try:
             for i, t in enumerate(tools):
-                p.stdin.write(frame({"jsonrpc": "2.0", "id": i + 1, "method": "tools/call", "params": {"name": t, "arguments": {"actor": "ops@example.test"}}}))
+                tname, targs = big[t] if t in big else (t, {"actor": "ops@example.test"})
+                p.stdin.write(frame({"jsonrpc": "2.0", "id": i + 1, "method": "tools/call", "params": {"name": tname, "arguments": targs}}))
                 p.stdin.flush()
                 resp = read_frame(p.stdout)
                 if resp is None:
@@ -270,6 +280,7 @@ def mcp_serve_killed(ctx, rng):
         stats["records"] += len(recs)
         if not answered:
             raise RuntimeError("hookaido mcp serve (%s) answered nothing: %s" % (role, errout[-400:]))
+        answered = [a.rstrip("+") for a in answered]
         if recs != answered:
             C.report(ctx, "mcp-serve-killed:%s" % ("audit-records-lost" if len(recs) < len(answered) else "audit-records-differ"),
                      "hookaido mcp serve --role %s answered the mutating calls %s and was then killed (%s): its audit stream (stderr) holds records for %s" %
